@@ -96,7 +96,12 @@ func (h TXN) Generate(seed uint64, tier string) *core.Scenario {
 		case x < 77:
 			b.Ops = append(b.Ops, TxnOp{S: s, Kind: "readidx2", B: r.Intn(3), C: r.Intn(3)})
 		case x < 93:
-			b.Ops = append(b.Ops, TxnOp{S: s, Kind: "commit"})
+			if h.Prop == "C23" && r.Chance(1, 5) {
+				// a SQL commit that also creates a dolt commit, while other transactions change the working set
+				b.Ops = append(b.Ops, TxnOp{S: s, Kind: "dcommittxn"})
+			} else {
+				b.Ops = append(b.Ops, TxnOp{S: s, Kind: "commit"})
+			}
 		case x < 97:
 			b.Ops = append(b.Ops, TxnOp{S: s, Kind: "rollback"})
 		case x < 99:
@@ -541,6 +546,23 @@ func (h TXN) Execute(t *testing.T, sc *core.Scenario) *core.Result {
 		case "commit":
 			_, err := s.Exec(ctx, "COMMIT")
 			commitModel(i, step, err == nil, errStr(err))
+			continue
+		case "dcommittxn":
+			// CALL dolt_commit inside the session's transaction: the transaction is committed (merged with
+			// what others committed meanwhile) and a dolt commit is made of the result
+			ensureTxn(i)
+			_, err := s.Exec(ctx, fmt.Sprintf("CALL dolt_commit('-Am', 'step %d, session %d')", step, i))
+			committed := err == nil
+			if err == nil {
+				res.Fault("sql-commit-that-also-creates-a-dolt-commit")
+			} else if strings.Contains(err.Error(), "nothing to commit") {
+				// by design (doDoltCommit): when the merged working set equals HEAD the transaction is
+				// committed all the same ("dolt_commit is expected to COMMIT") and only then the error
+				// is returned - the statement fails, the transaction does not
+				res.Probe("dolt_commit_nothing_to_commit")
+				committed = true
+			}
+			commitModel(i, step, committed, errStr(err))
 			continue
 		case "rollback":
 			s.Exec(ctx, "ROLLBACK")
